@@ -195,8 +195,8 @@ theorem blade2canon_unfold (alg : Src.Alg) (bb : List Char) :
         | some cb =>
           if Py.truthy cb = true then
             Src.swap_blades bb [] cb >>= fun r => pure (cb, r.1)
-          else pure (['e'] ++ Py.strOfInt (Py.pow 2 alg.d), (0 : Int))
-        | none => pure (['e'] ++ Py.strOfInt (Py.pow 2 alg.d), (0 : Int)) := by
+          else pure (bb, (0 : Int))
+        | none => pure (bb, (0 : Int)) := by
   unfold Src.blade2canon
   split
   · rfl
@@ -235,16 +235,16 @@ theorem swap_blades_pyName (sp canon : List Nat) (hsp : ∀ l ∈ sp, l < 14) (h
 /-- **`_blade2canon` is `Cfg.blade2canon`**: for every admissible configuration with one-digit labels below 14 (so that no
     label is spelled with the letter `e` of the prefix) and every spelling over one-digit labels — canonical, permuted,
     with repeated or foreign letters — the translated python returns the model's canonical name and swap count, and the
-    out-of-space marker `'e' ++ str(2^d)` with 0 swaps exactly where the model returns `none`; it never raises. -/
+    requested spelling itself (which is then not a key of `canon2bin`) with 0 swaps exactly where the model returns `none`;
+    it never raises. -/
 theorem blade2canon_eq (c : Cfg) (h : Cfg.Adm c) (h14 : ∀ v ∈ c.vecs, v < 14) (sp : List Nat) (hsp : ∀ l ∈ sp, l < 14) :
     Src.blade2canon (algOf c) (pyName sp) =
       match c.blade2canon sp with
       | some (canon, swaps) => .ok (pyName canon, Int.ofNat swaps)
-      | none => .ok ('e' :: Py.strOfInt (Int.ofNat (2 ^ c.d)), 0) := by
+      | none => .ok (pyName sp, 0) := by
   have hb14 : ∀ n ∈ c.basis, ∀ l ∈ n, l < 14 := fun n hn l hl => h14 l (h.names_letters n hn l hl)
   have hb16 : ∀ n ∈ c.basis, ∀ l ∈ n, l < 16 := fun n hn l hl => by have := hb14 n hn l hl; omega
   have hs16 : ∀ l ∈ sp, l < 16 := fun l hl => by have := hsp l hl; omega
-  have hd : (algOf c).d = Int.ofNat c.d := rfl
   rw [blade2canon_unfold, dictHas_canon2bin c hb16 sp hs16]
   unfold Cfg.blade2canon
   by_cases hc : c.basis.contains sp = true
@@ -263,7 +263,7 @@ theorem blade2canon_eq (c : Cfg) (h : Cfg.Adm c) (h14 : ∀ v ∈ c.vecs, v < 14
     show (match Py.dictGet? (algOf c).bin2canon (Int.ofNat _) with
       | some cb => _
       | none => _) = _
-    rw [dictGet?_bin2canon, hd, pow_two_ofNat]
+    rw [dictGet?_bin2canon]
     by_cases hany : (sp.any fun l => !c.vecs.contains l) = true
     · rw [if_pos hany]
       obtain ⟨l, hl, hlv⟩ := List.any_eq_true.mp hany
